@@ -1,5 +1,5 @@
 (* C08: the accumulator delivers every frame exactly once, however the stream is chunked. *)
-From PV Require Import Base MachineInt DataModel De Cobs CobsRef DeFlavors Accumulator CobsEntry AccFacts.
+From PV Require Import Base MachineInt DataModel De Cobs CobsRef DeFlavors Accumulator CobsEntry AccFacts AccInterp AccAstFacts.
 Open Scope N_scope.
 
 (* For every way of cutting the stream into feed calls (the universally quantified `chunks`,
@@ -51,8 +51,16 @@ Example C08_example :
       [Consumed; Success (VInt U8 7) [2]; Consumed; Success (VInt U8 9) [3]; Consumed]).
 Proof. vm_compute. reflexivity. Qed.
 
+(* the accumulator step of these theorems is what the body of CobsAccumulator::feed_ref computes:
+   the body is re-read from accumulator.rs on every run as a statement tree (conditions,
+   assignments to idx, extend_unchecked, the decode, every return) and interpreted *)
+Theorem C08_step_is_the_source : forall (t : ty) (st : acc_st) (input : list byte),
+  feed_ast t st input = feed t st input.
+Proof. exact feed_ast_is_feed. Qed.
+
 Print Assumptions C08_every_chunking.
 Print Assumptions C08_one_result_per_frame.
 Print Assumptions C08_frames_fit.
 Print Assumptions C08_exactly_once.
 Print Assumptions C08_conservation.
+Print Assumptions C08_step_is_the_source.
